@@ -11,6 +11,7 @@ from typing import (
     Callable,
     Dict,
     Generic,
+    List,
     Mapping,
     Optional,
     Type,
@@ -107,12 +108,14 @@ class Runtime:
 
     handlers: Mapping[Type[Request], Handler]
     previous: Optional["Runtime"]
+    _previous: Dict[threading.Thread, List[Optional["Runtime"]]]
 
     def __init__(
         self, handlers: Optional[Mapping[Type[Request], Handler]] = None
     ) -> None:
         self.handlers = {**_DEFAULT_HANDLERS, **(handlers or {})}
         self.previous = None
+        self._previous = {}
 
     def handle(
         self,
@@ -182,14 +185,27 @@ class Runtime:
 
     def __enter__(self):
         with lock:
-            self.previous = _RUNTIMES.get(threading.current_thread())
-            _RUNTIMES[threading.current_thread()] = self
+            thread = threading.current_thread()
+            # one entry per active block: the same runtime object can be entered
+            # again while it is active, and by several threads at once
+            self.previous = _RUNTIMES.get(thread)
+            self._previous.setdefault(thread, []).append(self.previous)
+            _RUNTIMES[thread] = self
             return self
 
     def __exit__(self, exc_type, exc_value, traceback):
         with lock:
-            _RUNTIMES[threading.current_thread()] = self.previous
-            self.previous = None
+            thread = threading.current_thread()
+            stack = self._previous[thread]
+            previous = stack.pop()
+            if not stack:
+                del self._previous[thread]
+            if previous is None:
+                # the thread had no runtime before the block was entered
+                _RUNTIMES.pop(thread, None)
+            else:
+                _RUNTIMES[thread] = previous
+            self.previous = stack[-1] if stack else None
 
 
 _RUNTIMES: Dict[threading.Thread, Runtime] = {}
